@@ -23,7 +23,7 @@ Permitted(keys, certs, server, now) == keys = {} \/ Validate(ValidCerts(keys, ce
 PermittedLax(keys, certs, server, now) == keys = {} \/ ValidateLax(ValidCerts(keys, certs), server, now)
 
 \* the instant now = expires of the last valid certificate is excluded from the verdict: either answer is accepted
-Verdict(keys, certs, server, now) ==
+GMVerdict(keys, certs, server, now) ==
   IF Permitted(keys, certs, server, now) THEN "permit"
   ELSE IF PermittedLax(keys, certs, server, now) THEN "either"
   ELSE "deny"
